@@ -248,6 +248,15 @@ def gen_C17(rnd, n, tier):
         whole = "\n".join(srcs)
         indep.append(Case(compile_line(cfg, whole), whole, cfg, {"indep": i, "role": "whole"}))
         for k, sp in enumerate(srcs): indep.append(Case(compile_line(cfg, sp), sp, cfg, {"indep": i, "role": k}))
+    fontsK = {"FA": {"maxLineLength": 208, "numLines": 2, "cursorOverlapWidth": 0, "widths": {"default": 6, " ": 3, "{KYOGRE}": 0, "{HERO}": 4}},
+              "FB": {"maxLineLength": 208, "numLines": 2, "cursorOverlapWidth": 0, "widths": {"default": 6, " ": 3, "{KYOGRE}": 36, "{HERO}": 60}}}
+    for i in range(max(6, n // 8)):
+        code = rnd.choice(["{KYOGRE}", "{HERO}"]); cnt = rnd.randint(14, 20)
+        guide = 'script Guide%d { msgbox(format("Ask %s about it", "%s")) }\n' % (i, code, rnd.choice(["FA", "FB"]))
+        sign = 'script Sign%d { msgbox(format("%s %s", "%s")) }\n' % (i, code, " ".join(["aaa"] * cnt), rnd.choice(["FA", "FB"]))
+        cfg = Cfg(fontdefault="FA", fonts=fontsK, optimize=rnd.random() < 0.5)
+        for role, src in (("both", guide + sign), ("both2", sign + guide), ("alone", sign)):
+            indep.append(Case(compile_line(cfg, src), src, cfg, {"fmtindep": i, "role": role, "label": "Sign%d_Text_0" % i}))
     reps = 4 if tier == "quick" else 12
     seq = []
     for k in range(reps * 8):
@@ -259,13 +268,23 @@ def gen_C17(rnd, n, tier):
 
 def oracle_C17_all(cases, rawresults):
     from proto import decode_result
-    first = {}; groups = {}
+    first = {}; groups = {}; fgroups = {}
     for c, r in zip(cases, rawresults):
+        if "fmtindep" in c.meta:
+            fgroups.setdefault(c.meta["fmtindep"], []).append((c, decode_result(r))); continue
         if "indep" in c.meta:
             groups.setdefault(c.meta["indep"], []).append((c, decode_result(r))); continue
         j = c.meta["orig"]
         if j not in first: first[j] = r
         elif first[j] != r: return (c, "compilation %d of the same input differs from the first one" % (c.meta["rep"] + 1))
+    from cases_data import text_blocks
+    for g, lst in fgroups.items():
+        blocks = []
+        for c, r in lst:
+            if r["kind"] != "OK": return (c, "a valid format() program was rejected: %s" % r.get("msg"))
+            blocks.append(text_blocks(r["text"])[0].get(c.meta["label"]))
+        if any(b != blocks[0] for b in blocks):
+            return (lst[0][0], "the hoisted text %s is laid out differently depending on which other scripts are in the file" % lst[0][0].meta["label"])
     for g, lst in groups.items():
         whole = [x for x in lst if x[0].meta["role"] == "whole"][0]
         parts = sorted([x for x in lst if x[0].meta["role"] != "whole"], key=lambda x: x[0].meta["role"])
@@ -325,7 +344,9 @@ def gen_C18(rnd, n, tier):
             src = rnd.choice(["const FLAG_DONE = FLAG_DONE\n\nscript S {\n\tsetflag(FLAG_DONE)\n}", "const OBJ_A = OBJ_B\nconst OBJ_B = OBJ_A\nscript S { turn(OBJ_A, OBJ_B) if (var(OBJ_B) == OBJ_A) { x } }",
                               "const K = K + 1\nmart M { K }\nscript S { switch (var(K)) { case K: a } }", "const A = B\nconst B = C\nconst C = A\nmapscripts M { T [ A, B: C ] }",
                               "movement M { walk_up * 9223372036854775807 }", "script S { a(moves(walk_up * 0x7fffffffffffffff)) }", "movement M { face_down walk_up * 9000000000000000000 }",
-                              "movement M { walk_up * 4294967296 walk_down * 65536 }"])
+                              "movement M { walk_up * 4294967296 walk_down * 65536 }",
+                              "script Idle {\n while {\n  w\n  if (flag(D)) {\n   break\n  }\n }\n}\nscript Other {\n lock\n if (flag(A)) {\n  continue\n }\n}",
+                              "script A { while { while { break } break } if (flag(F)) { break } }", "script A { do { switch (var(V)) { case 1: continue } } while (flag(F)) continue }"])
         elif x < 0.7:
             from cases_data import Pory
             src = Pory(rnd).program()[0]
@@ -402,8 +423,8 @@ def sep(r, force):
         elif x < 0.6: parts.append("\t")
         elif x < 0.75: parts.append("\n")
         elif x < 0.8: parts.append("\r\n")
-        elif x < 0.9: parts.append("# cömment " + r.choice(["x", "€", "if (", "a \x00 b"]) + "\n")
-        else: parts.append("// c\n")
+        elif x < 0.9: parts.append("# cömment " + r.choice(["x", "€", "if (", "a \x00 b", "C:\\dir\\", "40 steps", "1"]) + "\n")
+        else: parts.append(r.choice(["// c\n", "// c\n", "// path\\\n", "#1 x\n"]))
     return "".join(parts)
 
 def needs_sep(a, b):
@@ -508,7 +529,7 @@ def gen_C20(rnd, n, tier):
     kinds = ["break_outside", "continue_outside", "continue_not_last", "dup_case", "two_defaults", "const_redef",
              "text_clash", "movement_clash", "label_clash", "label_text_clash", "continue_in_switch_only",
              "continue_after_loop_in_switch", "break_after_closed_loop", "continue_after_closed_loop",
-             "dup_case_const", "dup_case_const_rev", "dup_case_multi", "label_clash_forward", "continue_not_last_in_case", "label_clash_nested"]
+             "dup_case_const", "dup_case_const_rev", "dup_case_multi", "label_clash_forward", "continue_not_last_in_case", "label_clash_nested", "continue_after_inf_loop", "dup_case_nested_switch", "label_clash_probe"]
     for i in range(n):
         kind = kinds[i % len(kinds)]
         pre = p_block(plain_body(rnd), 1)      # statements before, inside script S
@@ -580,6 +601,32 @@ def gen_C20(rnd, n, tier):
             body = bl + ["  while (flag(L)) {", "    switch (var(V)) {", cs, "      continue", "      second", "    case 2:", "      c", "    }", "  }"]
             line = len(head) + 1 + len(bl) + 4
             src = assemble(head, body)
+        elif kind == "continue_after_inf_loop":
+            # an infinite loop earlier in the file (also in another script) must not keep `continue` legal
+            inf = rnd.choice([["script Idle {", "  while {", "    w", "    if (flag(D)) {", "      break", "    }", "  }", "}"],
+                              ["script Idle {", "  while {", "    while {", "      break", "    }", "    break", "  }", "}"]])
+            same = rnd.random() < 0.4
+            if same:
+                body = inf[1:-1] + ["  if (flag(A)) {", "    continue", "  }"]; line = len(head) + 1 + len(inf) - 2 + 2
+                src = assemble(head, body)
+            else:
+                body = bl + ["  if (flag(A)) {", "    continue", "  }"]; line = len(head) + len(inf) + 1 + len(bl) + 2
+                src = assemble(head + inf, body)
+        elif kind == "dup_case_nested_switch":
+            body = bl + ["  switch (var(V)) {", "    case 1: a", "    case 2:", "      switch (var(W)) {", "        case 1: inner", "      }", "    case 1: b", "  }"]
+            line = len(head) + 1 + len(bl) + 7
+            src = assemble(head, body)
+        elif kind == "label_clash_probe":
+            # a label S_k in front of a random body: must be rejected whenever the same body without the
+            # label emits S_k: itself (the base program of the group comes first in the stream)
+            g = G(rnd, maxdepth=2, labels=False); b2 = p_block(g.body(), 1).rstrip("\n").split("\n")
+            src = assemble(head, b2); gid = "probe%d" % i
+            out.append(Case(compile_line(base_cfg(optimize=False), src), src, base_cfg(optimize=False), {"kind": "probe_base", "gid": gid, "line": 0}))
+            for k in range(1, 10):
+                srck = assemble(head, ["  S_%d:" % k] + b2)
+                cfgk = base_cfg(optimize=rnd.random() < 0.5)
+                out.append(Case(compile_line(cfgk, srck), srck, cfgk, {"kind": "probe", "gid": gid, "label": "S_%d" % k, "line": len(head) + 2}))
+            continue
         elif kind == "label_clash_nested":
             # the clashing label sits inside the body of a do-while / while / switch case / else block
             lab = rnd.choice(["S_1", "S_2", "S_Text_0"])
@@ -600,8 +647,18 @@ def gen_C20(rnd, n, tier):
         # the same program without the violation must be accepted (sanity of the generator)
     return out
 
+PROBE = {}
 def oracle_C20(case, res):
     m = case.meta
+    if m["kind"] == "probe_base":
+        PROBE[m["gid"]] = set(re.findall(r"^(S_\d+):$", res.get("text", ""), re.M)) if res["kind"] == "OK" else None
+        return None
+    if m["kind"] == "probe":
+        labs = PROBE.get(m["gid"])
+        if labs is None or m["label"] not in labs: return None          # not a generated label of this body: nothing to demand
+        if res["kind"] != "PERR": return "label %s equals a generated label of the script but was not rejected (%s)" % (m["label"], res["kind"])
+        if res["lineStart"] != m["line"]: return "label clash %s reported on line %d, the label is on line %d" % (m["label"], res["lineStart"], m["line"])
+        return None
     if res["kind"] != "PERR": return "%s was not rejected (%s)" % (m["kind"], res["kind"])
     if res["lineStart"] != m["line"]:
         return "%s reported on line %d, the offending construct is on line %d (%s)" % (m["kind"], res["lineStart"], m["line"], res["msg"])
